@@ -76,6 +76,18 @@ func (g *Gen) coef() *big.Int {
 		c.Add(c, big.NewInt(int64(g.R.N(7)-3)))
 	case 6: // small integers
 		c.SetInt64(int64(g.R.N(1000)))
+	case 7: // a run of zeros in the middle (digit chunking, zero stripping)
+		l := g.R.Range(12, 35)
+		b := []byte(g.digits(l))
+		z := g.R.Range(2, l-2)
+		at := g.R.N(l - z)
+		if at == 0 {
+			at = 1
+		}
+		for i := at; i < at+z && i < l-1; i++ {
+			b[i] = '0'
+		}
+		c.SetString(string(b), 10)
 	default:
 		c.SetString(g.digits(g.coefLen()), 10)
 	}
